@@ -354,6 +354,9 @@ pub struct DecDriver {
     srcbuf: Vec<u8>,
     /// when true every destination is an exact-size heap allocation (for ASan runs)
     pub exact_alloc: bool,
+    /// stop (without finishing the stream) after this many calls; used to rebuild a decoder
+    /// in the state it has at a given call boundary of a history
+    pub stop_after_calls: Option<usize>,
 }
 
 pub struct StepOut {
@@ -365,7 +368,7 @@ pub struct StepOut {
 
 impl DecDriver {
     pub fn new() -> DecDriver {
-        DecDriver { buf8: Vec::new(), buf16: Vec::new(), srcbuf: Vec::new(), exact_alloc: false }
+        DecDriver { buf8: Vec::new(), buf16: Vec::new(), srcbuf: Vec::new(), exact_alloc: false, stop_after_calls: None }
     }
 
     /// One decode call with all per-call monitors.  Output units are appended to `out`.
@@ -617,6 +620,9 @@ impl DecDriver {
             let last = k + 1 == total_chunks;
             let mut off = a;
             loop {
+                if self.stop_after_calls == Some(call_index) {
+                    break 'chunks;
+                }
                 let src = &h.stream[off..b];
                 let mut from_query = false;
                 let cap = if h.caps.is_empty() {
